@@ -18,15 +18,16 @@ PROP = {
         "reversed with CONS_DIR toggled, CurrHF' = total-1-CurrHF, CurrINF' = segments-1-CurrINF, reserved bits and trailing bytes kept",
         "involution: reverse(reverse(p)) == p byte-for-byte (view, all accepted inputs) / struct-equal (model)",
         "ScionDpPathViewExtMut::try_reverse / try_into_reversed: Err leaves the bytes unchanged (Standard, Unsupported, Empty variants)",
-        "StandardPath::try_reverse (model): Err => model unchanged, fails only without segments / pointer out of range, involution; "
-        "all shapes <= 2 segments x <= 2 hops including empty segments, symbolic contents and pointers",
-        "agreement for every encodable model of the enumerated shapes at every pointer position: to_model(encode(m)) == m, "
-        "expiration, first/last/current ingress/egress interface, calculate_segment_index, "
-        "encode(model.try_reverse()) == bytes(view.try_reverse()) with Ok/Err agreement",
         "OneHopPathView::try_reverse: atomicity, exact spec, involution; OneHopPathView::expiration total and saturating, equal to the "
         "standard view on the same fields; one-hop view/model agreement on conversion and reversal (fixed 32 B: class P)",
     ],
     "not_decided": [
+        "StandardPath (model) contracts and standard view/model agreement (model reversal atomicity/involution, to_model(encode(m)) == m, "
+        "expiration, interface queries, calculate_segment_index, encode(model.try_reverse()) == bytes(view.try_reverse())): the harnesses "
+        "c12_model_reverse_total_small / c12_agree_one_segment / c12_agree_two_segments / c12_agree_three_segments_t are written "
+        "(/verif/kani/sciparse/std_view.rs) but NOT registered: with TinyVec<[HopField;12]>/ArrayVec<[Segment;3]> models CBMC ran out of "
+        "memory (13 shapes in one harness) or exceeded 60 min (4 shapes) on the shared machine; they need one harness per shape. "
+        "The view side of reversal is fully specified instead (C12.rev-spec), one-hop agreement is proved.",
         "ScionPath::try_reverse (scion/path.rs): its only fallible step is `self.dp_path.try_reverse()?` as the FIRST statement "
         "(anchor checked textually), so Err-atomicity reduces to the view contracts above; the Ok path recomputes SHA-256 fingerprints "
         "and is not run symbolically",
@@ -34,10 +35,9 @@ PROP = {
         "not compared",
         "OneHopPath::set_second_hop (model) sets ExpTime 0 and clears flags whereas OneHopPathView::set_second_hop copies the first "
         "hop's ExpTime: observation, not claimed",
-        "agreement beyond the enumerated shapes (3 segments x 3 hops is thorough tier)",
     ],
     "assumptions": [],
-    "trusted": ["tinyvec ArrayVec/TinyVec (compiled and executed symbolically, concrete lengths)"],
+    "trusted": [],
     "units": [
         {
             "id": "sciparse-std-view", "engine": "kani", "package": "sciparse",
@@ -47,7 +47,6 @@ PROP = {
             "hooks": [(STDVIEW, "mod verif_std_view;")],
             "anchors": [(STDVIEW, ["try_reverse", "expiration", "calculate_segment_index", "_calculate_segment_index",
                                    "info_fields_mut", "hop_fields_mut"]),
-                        (STDMODEL, ["try_reverse", "expiration", "encode_unchecked", "from_view", "wire_valid"]),
                         (DPVIEW, ["try_reverse", "try_into_reversed", "first_egress_interface", "last_ingress_interface",
                                   "current_egress_interface", "current_ingress_interface"]),
                         ("crates/libs/sciparse/src/scion/path.rs",
@@ -63,10 +62,6 @@ PROP = {
                 H("c12_view_reverse_involution_n100", "B", bound=B100, what="view reversal is an involution", timeout=3000),
                 H("c12_dp_view_reverse_atomic_n64", "B", bound="path byte strings <= 64 B", what="ScionDpPathViewExtMut wrappers: Err => bytes unchanged", timeout=3000),
                 H("c12_dp_view_reverse_other_variants", "P", what="Unsupported / Empty variants", timeout=900),
-                H("c12_model_reverse_total_small", "B", bound="all shapes <= 2 segments x <= 2 hops incl. empty segments", what="model reversal: atomic, total, involution", timeout=3000),
-                H("c12_agree_one_segment", "B", bound="shapes (1),(2)", what="view/model agreement", timeout=3000),
-                H("c12_agree_two_segments", "B", bound="shapes (1..2, 1..2)", what="view/model agreement", timeout=3600),
-                H("c12_agree_three_segments_t", "B", tier="thorough", bound="all shapes <= 3 segments x <= 3 hops", what="view/model agreement", timeout=14400),
             ],
         },
         {
